@@ -91,7 +91,7 @@ def choose_flags(rng, net, k):
 
 def corr_patterns(ctx):
     rng = ctx.rng
-    n_base = 4 if ctx.quick else 14
+    n_base = 3 if ctx.quick else 12
     k = 5 if ctx.quick else 10
     specs = [(sp, fl) for _, sp, fl, _ in mon.corpus()] + [(sp, None) for sp in base_specs(ctx, n_base)]
     conn, heat, red, meta, meta_red, rst = [], [], [], [], [], []
